@@ -337,6 +337,7 @@ def _run_group_once(g: Group, prop: str, keep_trace=True, sub="") -> Result:
         n = 0
         ok = 0
         canaries = 0
+        filtered = 0
         vacuous = []
         for r in results:
             desc = r.get("description", "")
@@ -344,6 +345,7 @@ def _run_group_once(g: Group, prop: str, keep_trace=True, sub="") -> Result:
             loc = r.get("sourceLocation", {})
             m = TAG_RE.match(desc)
             if g.tags is not None and m and not (set(m.group(1).split("/")) & set(g.tags)):
+                filtered += 1
                 continue   # obligation belongs to another property
             if desc.startswith("VP-CANARY"):
                 # reachability guard: this assertion(false) must FAIL, i.e. the harness end is reachable under
@@ -427,7 +429,7 @@ def _run_group_once(g: Group, prop: str, keep_trace=True, sub="") -> Result:
             res.status = "undecided"
             res.detail = "auxiliary obligations failed: " + "; ".join(
                 f"{e['description']} @{os.path.basename(e['file'])}:{e['line']}" for e in res.aux_failed[:5])
-        elif n < g.min_obligations:
+        elif n < g.min_obligations and filtered == 0:
             raise Infra(f"vacuity guard: only {n} obligations, expected at least {g.min_obligations}")
         else:
             res.status = "held"
